@@ -27,7 +27,7 @@ def parseOp (ts : List String) : Option Op :=
       match op with
       | "raw" => some (.raw h x) | "copy" => some (.copy h x) | "move" => some (.move h x)
       | "assign" => some (.assign h x) | "massign" => some (.massign h x)
-      | "swap" | "fswap" => some (.swap h x) | _ => none
+      | "swap" | "fswap" => some (.swap h x) | "objassign" => some (.objassign h x) | _ => none
   | _ => none
 
 def query (s : St) (ts : List String) : Option String :=
